@@ -95,6 +95,34 @@ func vpH_C03_T_changed() {
 	vpAuditLog(s.st, "a", false, 0, false)
 }
 
+// vpH_C03_T_changed_then_cut: the record is replaced at a symbolic instant and the store stops answering right
+// after it has rejected the leader's next refresh (the read the leader may make to find out who took over is
+// never answered): the leader still steps down by tc + H + 2*timeout.
+func vpH_C03_T_changed_then_cut() {
+	tm := vpTimings[0]
+	s := vpLeadingInstance(tm, 0, nil)
+	s.kv.opLeft = 6
+	tc := int64(-1)
+	go func() {
+		vpDelay("change", 0, tm.H+tm.H/2)
+		tc = vpNow()
+		s.st.write("env:other", "update", vpRecMk("other", "tok-other", 0), false, s.st.lastSeq)
+		vpEvent("changed")
+	}()
+	s.kv.beforeIssue = func(op string) {
+		if op == "get" && tc >= 0 {
+			s.st.cut = true
+		}
+	}
+	select {
+	case <-s.demoted:
+	case <-time.After(2*tm.H + tm.H + 2*s.to + time.Second):
+	}
+	vpCover("C03.changed-then-cut")
+	vpAssert("C03.demote-after-change", tc >= 0 && s.cb.demotes >= 1 && !s.e.IsLeader())
+	vpAssert("C03.demote-after-change:bound", vpImplies(s.cb.demotes >= 1, s.cb.demoteAt <= tc+int64(tm.H+2*s.to)))
+}
+
 // vpH_C03_T_unreachable: from a symbolic instant on the store is unreachable (every operation fails after
 // a symbolic delay or never answers, applied or not); demotion by the end of the third consecutive
 // failed attempt and within 3H + 3*timeout of the start of the last successful refresh.
@@ -108,6 +136,16 @@ func vpH_C03_T_unreachable_fast() { vpC03UnreachableW(vpTimings[2], vpUpdateTime
 
 func vpC03Unreachable(tm vpTiming) { vpC03UnreachableW(tm, 0) }
 
+// vpH_C03_T_unreachable_anyerr: as unreachable (H = 1 s), but the failing operations report an error with an
+// arbitrary text (one symbolic string per run, classified by the library's text matching): whatever the client
+// library calls the failure, the leader steps down by its third consecutive failed attempt.
+func vpH_C03_T_unreachable_anyerr() {
+	vpC03SymErr = true
+	vpC03UnreachableW(vpTimings[0], 0)
+}
+
+var vpC03SymErr bool
+
 // extra widens the window in which the cut may begin (so that slow successful refreshes precede it)
 func vpC03UnreachableW(tm vpTiming, extra time.Duration) {
 	mcf := []int{0, 6}[vpChoose("MaxConsecutiveFailures", 2)] // the health threshold must not change the heartbeat rule
@@ -115,6 +153,10 @@ func vpC03UnreachableW(tm vpTiming, extra time.Duration) {
 	s.kv.lat = s.to - 1
 	s.kv.cutLat = s.to
 	s.kv.opLeft = 7
+	if vpC03SymErr {
+		vpC03SymErr = false
+		s.st.symErr = true
+	}
 	go func() {
 		vpDelay("cut", 0, 2*tm.H+tm.H/2+extra)
 		s.st.cut = true
